@@ -105,6 +105,10 @@ def programs(draw, tier):
     HA = draw(st.sampled_from(names))
     batch = draw(st.sampled_from(gen.BATCHES))
     n = draw(st.integers(1, 5))
+    if draw(st.integers(0, 11)) == 0:
+        # larger batch dimensions (the pairwise reductions of sum / prod pad odd counts in later rounds: 5, 6)
+        batch = draw(st.sampled_from([(5,), (6,), (6, 2), (2, 6)]))
+        n = draw(st.integers(1, 3))
     first = draw(st.sampled_from(BINARY + ["scalar", "scalar", "unary"]))
     steps = []
     operands = []
@@ -296,7 +300,7 @@ def check(case):
             if nb == 0 or not a["psd"] or ref_a.shape[-1] != ref_a.shape[-2]:
                 continue
             dim = _pick(p, list(range(nb)))
-            if ref_a.shape[dim] > 3:
+            if ref_a.shape[dim] > 6:
                 continue
             fn_lib, ref, mag = (lambda: a["lib"].prod(dim)), ref_a.prod(dim), mag_a.prod(dim)
             loose = True
@@ -504,7 +508,7 @@ def _any_batched(case):
 DIAGISH = {"Diag", "ConstantDiag", "Identity", "KroneckerDiag"}
 
 BATCHED_CONST_BAD = {"BlockInterleaved", "BlockDiag", "SumBatch", "Zero"}
-GETITEM_OPEN = {"Kernel", "Matmul", "BatchRepeat", "BlockDiag", "BlockInterleaved", "Cat", "TransposePermutation"}
+GETITEM_OPEN = {"Kernel", "KeOps", "Matmul", "BatchRepeat", "BlockDiag", "BlockInterleaved", "Cat", "TransposePermutation"}
 
 def _squeeze_step(c):
     """squeeze (or prod over a size-1 batch dimension, which is implemented as squeeze) = __getitem__ with an int batch
@@ -513,7 +517,10 @@ def _squeeze_step(c):
     idx = [i for i, k in enumerate(ks) if k in ("squeeze", "prod")]
     if not idx:
         return False
-    return _first(c) == "matmul" or bool(GETITEM_OPEN & _all_classes(c)) or bool({"repeat", "expand"} & set(ks[: idx[-1]]))
+    if _first(c) == "matmul" or bool(GETITEM_OPEN & _all_classes(c)) or bool({"repeat", "expand"} & set(ks[: idx[-1]])):
+        return True
+    # a BatchRepeat created by a constructor that batch-expands a component with the default _expand_batch
+    return any(o["kind"] == "op" and R.built_has_class(o["recipe"], "BatchRepeatLinearOperator") for o in c["operands"])
 
 
 TRIGGERS = {
@@ -521,7 +528,8 @@ TRIGGERS = {
     "scalar_batched": lambda c: any(s.get("s", {}).get("kind") == "batched" and s["k"] in ("mul_scalar", "rmul_scalar", "div_scalar") for s in c["steps"]) and bool(BATCHED_CONST_BAD & _all_classes(c)),
     "interp_matmul_operator": lambda c: _first(c) == "matmul" and _heads(c)[0] == "Interpolated",
     "mul_with_identity": lambda c: _first(c) == "mul" and "Identity" in _heads(c),
-    "repeat_step": lambda c: "repeat" in _kinds(c) and (_nonsquare0(c) or _first(c) in ("matmul", "cat")),
+    # (a BatchRepeat written in the recipe is the same object as the result of a repeat() step)
+    "repeat_step": lambda c: ("repeat" in _kinds(c) and (_nonsquare0(c) or _first(c) in ("matmul", "cat"))) or ("BatchRepeat" in _all_classes(c) and _nonsquare0(c)),
     # squeeze() is __getitem__ with an int batch index: it inherits the open C03 __getitem__ defects of these classes
     # (BatchRepeat also arises from an earlier repeat / expand step)
     "squeeze_step": _squeeze_step,
